@@ -36,7 +36,7 @@ From RU Require Import Base.Prelude Base.Utf8 Base.Utf8Facts Model.AsciiSet Gen.
   Proofs.C03_WF Proofs.C06_List Proofs.C06_WFI Proofs.C06_Tail
   Proofs.C08_Input Proofs.C08_Simple Proofs.C08_Contain Proofs.C08_NoAuth Proofs.C08_Absolute Proofs.C08_Relative Proofs.C08_RelEval
   Proofs.C08_RelPath Proofs.C08_RelJoin Proofs.C08_RelMr Proofs.C08_RelLaw Proofs.C08_RelCanon Proofs.C08_RelNoAuth
-  Proofs.C02_AuthParts Proofs.C02_Auth Proofs.C02_AuthSp Proofs.C02_AuthMain Proofs.C08_AbsNonfile Proofs.C08_RelAuth Proofs.C08_RelRecog Proofs.C08_Parsed.
+  Proofs.C02_AuthParts Proofs.C02_Auth Proofs.C02_AuthSp Proofs.C02_AuthMain Proofs.C08_AbsNonfile Proofs.C08_RelAuth Proofs.C08_RelRecog Proofs.C08_Parsed Proofs.C08_ContainFile.
 From RU Require Properties.C02.
 Open Scope N_scope.
 Open Scope list_scope.
@@ -147,13 +147,37 @@ Theorem C08_contain_auth : forall dbg hp hpo hd b input u',
 Proof. exact contain_auth. Qed.
 Print Assumptions C08_contain_auth.
 
-(* file bases are NOT covered by C08_contain (only by C08_empty / C08_frag / C08_query): *)
+(* file bases are NOT covered by C08_contain (only by C08_empty / C08_frag / C08_query); for them: *)
 Definition C08_contain_file_statement : Prop :=
   forall dbg hp hpo hd b input u',
   wf_b b = true -> cannot_be_a_base b = Some false -> st_is_file (b_st b) = true ->
   usv_list input -> contain_pre b input = true ->
   join dbg hp hpo hd b input = POk u' ->
   hosti u' = hosti b \/ hosti u' = HI_None.   (* the host is kept or dropped (F-C08-1), never replaced *)
+
+(* PROVED in full (every arm of parse_file with a base copies the base's host kind or stores none); the stronger
+   form needs neither wf_b nor usv_list *)
+Theorem C08_contain_file : C08_contain_file_statement.
+Proof. intros dbg hp hpo hd b input u' _ Hc Hf _ Hcp Hj. exact (contain_file dbg hp hpo hd b input u' Hc Hf Hcp Hj). Qed.
+Check C08_contain_file : forall dbg hp hpo hd b input u',
+  wf_b b = true -> cannot_be_a_base b = Some false -> st_is_file (b_st b) = true ->
+  usv_list input -> contain_pre b input = true ->
+  parse_url dbg hp hpo hd None (Some b) input = POk u' ->
+  hosti u' = hosti b \/ hosti u' = HI_None.
+Print Assumptions C08_contain_file.
+Theorem C08_contain_file_any : forall dbg hp hpo hd b input u',
+  cannot_be_a_base b = Some false -> st_is_file (b_st b) = true -> contain_pre b input = true ->
+  join dbg hp hpo hd b input = POk u' -> hosti u' = hosti b \/ hosti u' = HI_None.
+Proof. exact contain_file. Qed.
+Print Assumptions C08_contain_file_any.
+(* non-vacuity: against file://host/dir/f the references x/y?q, /x, ../.. keep the host, /c:/x and C| drop it *)
+Example C08_contain_file_inhabited :
+  file_contain_case "file://host/dir/f" "x/y?q" true = true
+  /\ file_contain_case "file://host/dir/f" "/x" true = true
+  /\ file_contain_case "file://host/dir/f" "../.." true = true
+  /\ file_contain_case "file://host/dir/f" "/c:/x" false = true
+  /\ file_contain_case "file://host/dir/f" "C|" false = true.
+Proof. exact contain_file_inhabited. Qed.
 
 (* file bases: the drive-letter branch drops the host (F-C01-1 / F-C08-1, in url/tests/expected_failures.txt);
    the fixed F-C08-5 = F-C01-4 no longer reproduces on the model *)
